@@ -2160,7 +2160,10 @@ func (cs Conditions) inlineTagFilter(tags map[string]TagDetails) ConditionsSet {
 		}
 		origLen := len(csNew)
 		for range tagConditionsSet {
-			csNew = append(csNew, csNew[:origLen]...)
+			// every variant gets its own copy: the conjunctions are appended to below
+			for _, cs := range csNew[:origLen] {
+				csNew = append(csNew, append(Conditions(nil), cs...))
+			}
 		}
 		a := c.Accept & certain
 		for i := range csNew {
